@@ -252,7 +252,7 @@ def fam_multi():
 
 def src_gen(N, tag):
     for i in range(N):
-        yield np.array([float(tag * 100 + i)])
+        yield np.array([float(tag * 1000 + i)])
 
 
 def ident(x):
@@ -289,12 +289,12 @@ def src_const(tag):
 
 def fan_out(x, n):
     for i in range(n):
-        yield np.array([float(x[0]) * 100 + i])
+        yield np.array([float(x[0]) * 1000 + i])
 
 
 def fan_out_many(*xs, n=1):
     for i in range(n):
-        yield np.array([sum(float(x[0]) for x in xs) * 100 + i])
+        yield np.array([sum(float(x[0]) for x in xs) * 1000 + i])
 
 
 def fam_miscount():
@@ -351,9 +351,9 @@ def check_fluent(tag, rp, build, out):
             n = b.nodes.data[idx]
             n = n if isinstance(n, Node) else n.parent
             got = ref[(n.name, Node.DEFAULT_OUTPUT)]
-            if int(round(float(got[1]))) % 100 != idx[kpos]:
+            if int(round(float(got[1]))) % 1000 != idx[kpos]:
                 out.append(({"monitor": "value_mismatch", "cause": "fluent: coordinate i of the yields dimension is not wired to the i-th declared output of the generator node"},
-                            f"{tag}: coordinate k={idx[kpos]} is wired to the output holding yielded value #{int(round(float(got[1]))) % 100}", rp))
+                            f"{tag}: coordinate k={idx[kpos]} is wired to the output holding yielded value #{int(round(float(got[1]))) % 1000}", rp))
                 return
     except Exception as e:
         out.append(({"monitor": "fluent_raised", "cause": f"reference evaluation: {type(e).__name__}"}, f"{tag}: {e!r}"[:300], rp))
@@ -380,9 +380,9 @@ def check_fluent(tag, rp, build, out):
         if got is None:
             continue
         i = idx[kpos]
-        if int(round(got[1])) % 100 != i:
+        if int(round(got[1])) % 1000 != i:
             out.append(({"monitor": "value_mismatch", "cause": "fluent: value at coordinate i of the yields dimension is not the i-th yielded value" + (" (N >= 11)" if N > 10 else "")},
-                        f"{tag}: coordinate k={i} received yielded value #{int(round(got[1])) % 100}", rp))
+                        f"{tag}: coordinate k={i} received yielded value #{int(round(got[1])) % 1000}", rp))
             return
 
 
